@@ -23,9 +23,12 @@ CLAIMED = {
          "Seeded scenario exploration of the shipped forms (3 years, all statuses, with and without NC); every solved return's numeric lines in integer cents are judged by the TLA+ formulas of Balance.tla.", "6/C15"),
  "C16": ("exploration", "TLC evaluates Metamorphic.tla on pairs of solved explored returns (renumbering permutations, wage / withholding / deduction increments)",
          "For every solved explored return all permutations of payer-form copies and sampled increments are re-solved by the real solver and each pair is judged by the TLA+ relations of Metamorphic.tla.", "6/C16"),
+ "C17": ("translation_validation", "TLC evaluates CatalogueFacts.tla on introspected catalogue facts, real Form.threshold() look-ups and the parsed output of list-forms / list-form-inputs",
+         "Exhaustive over every (year, form class, allowed instance) and every (status-keyed threshold table, filing status) pair: instantiation, declared year, unique names, metadata, name hygiene; the Lookup operator of the specification must give exactly one value per status and the real Form.threshold() must return it; the list-form-inputs template, un-commented, must parse back to exactly the declared inputs.", "6/C17"),
 }
 
 NOTES = {
+ "C17": "trusted base: introspection of Form objects, configparser for parsing the printed template; inline if/elif status chains are not tables and are covered by C08 probes",
  "C07": "the oracle's bracket table is my transcription of Rev. Proc. 2020-45/2021-45/2022-38, cross-checked by internal consistency axioms (MFJ = 2 x Single etc.) and by reproducing every row of the three shipped tables; worksheet values compared at +-1 cent; quick tier samples every 13th dollar",
  "C10": "paths are forced, so infeasible paths are included (over-approximation); loops take 0-2 iterations; path enumeration per line is capped (quick 3000, thorough 40000); trusted base: the mock accessors of harness/pathexplore.py, TLC",
  "C15": "explored returns only (seeded); amounts below $10M; the list of lines the forms define as non-negative is a reviewed transcription in Balance.tla",
